@@ -65,7 +65,12 @@ def build_go(cmds):
         for c in cmds:
             out = os.path.join(BUILD, c)
             tmp = out + ".new.%d" % os.getpid()
-            rc, so, se = sh(["go", "build", "-tags", "verif", "-o", tmp, "./cmd/" + c], cwd=HARNESS, env=GOENV, timeout=1500)
+            for attempt in range(4):
+                rc, so, se = sh(["go", "build", "-tags", "verif", "-o", tmp, "./cmd/" + c], cwd=HARNESS, env=GOENV, timeout=1500)
+                if rc != 0 and RESOURCE_RX.search(so + se) and attempt < 3:
+                    time.sleep(20 * (attempt + 1))  # fork/thread exhaustion of the machine, not a build error
+                    continue
+                break
             if rc != 0:
                 if os.path.exists(out):
                     os.remove(out)  # never run a stale binary
@@ -76,7 +81,12 @@ def build_go(cmds):
 
 def build_lean(targets):
     with BuildLock():
-        rc, so, se = sh(["lake", "build"] + targets, cwd=LEAN, timeout=3000)
+        for attempt in range(4):
+            rc, so, se = sh(["lake", "build"] + targets, cwd=LEAN, timeout=3000)
+            if rc != 0 and RESOURCE_RX.search(so + se) and attempt < 3:
+                time.sleep(20 * (attempt + 1))  # fork/thread exhaustion of the machine, not a proof failure
+                continue
+            break
     return rc == 0, (so + se)
 
 
@@ -128,7 +138,12 @@ def audit_axioms(pid, module, theorems):
     src = "".join("import %s\n" % m for m in mods) + "".join("#print axioms %s\n" % t for t in theorems)
     path = os.path.join(BUILD, "Audit_%s.lean" % pid)
     open(path, "w").write(src)
-    rc, so, se = sh(["lake", "env", "lean", path], cwd=LEAN, timeout=1200)
+    for attempt in range(4):
+        rc, so, se = sh(["lake", "env", "lean", path], cwd=LEAN, timeout=1200)
+        if rc != 0 and RESOURCE_RX.search(so + se) and attempt < 3:
+            time.sleep(20 * (attempt + 1))
+            continue
+        break
     out = so + se
     res = {}
     # outputs: "'X' depends on axioms: [a, b]" or "'X' does not depend on any axioms"
@@ -197,15 +212,33 @@ def exec_stream(binary, stream, seed, n, replay=None, timeout=3000):
     return p.returncode, p.stdout, p.stderr
 
 
+# the machine, not the code under test: fork/thread/memory exhaustion when many checks share the sandbox
+RESOURCE_RX = re.compile(r"resource temporarily unavailable|cannot allocate memory|failed to create new OS thread|"
+                         r"newosproc|out of memory|errno=11|too many open files")
+
+
 def run_stream(binary, stream, seed, n, replay=None):
     run = StreamRun(stream, seed, n)
-    try:
-        rc, out, err = exec_stream(binary, stream, seed, n, replay)
-    except subprocess.TimeoutExpired:
-        run.error = "harness timeout"
-        return run
+    for attempt in range(4):
+        try:
+            rc, out, err = exec_stream(binary, stream, seed, n, replay)
+        except subprocess.TimeoutExpired:
+            run.error = "harness timeout"
+            return run
+        except OSError as e:  # the fork itself failed
+            rc, out, err = 1, "", str(e)
+        if rc != 0 and RESOURCE_RX.search(err[-20000:]) and attempt < 3:
+            log("resource exhaustion while running stream %s (attempt %d): retrying" % (stream, attempt + 1))
+            time.sleep(20 * (attempt + 1))
+            continue
+        break
     if rc != 0:
-        run.error = "harness exit %d: %s" % (rc, err[-2000:])
+        m = re.search(r"^(fatal error:|panic:|SIG[A-Z]+:|runtime: ).*$", err, flags=re.M)
+        run.error = "harness exit %d: %s%s" % (rc, (m.group(0)[:400] + " ... ") if m else "", err[-2000:])
+        try:
+            open(os.path.join(BUILD, "last_crash_%s_%d.err" % (stream, seed)), "w").write(err[-400000:])
+        except OSError:
+            pass
         # keep whatever was produced: the crash point is itself informative
     parse_trace(out, run)
     model, mrc, merr = run_model("\n".join(run.ops) + "\n")
